@@ -8,10 +8,10 @@ from sa.core import AnalysisError, Repo, Report, call_name, kwarg, parent, unpar
 from sa.rules.common import calls_named, rtext, enclosing
 from sa.selftest import Edit, Variant
 
-from sa.texts import T as _T
+from sa.texts import T as _TX
 
-EXPLANATION = _T["C03"]["explanation"] + " Not decided: " + _T["C03"]["not_decided"] + "."
-ASSUMPTIONS = _T["C03"]["assumptions"]
+EXPLANATION = _TX["C03"]["explanation"] + " Not decided: " + _TX["C03"]["not_decided"] + "."
+ASSUMPTIONS = _TX["C03"]["assumptions"]
 P = "C03"
 
 
